@@ -67,19 +67,12 @@ pub proof fn lemma_pow2_mono(a: nat, b: nat)
 }
 
 /// facts that connect the instruction semantics (shim) with the language semantics (spec)
-pub proof fn lemma_bin_int_facts(w: nat, a: nat, b: nat)
+pub proof fn lemma_bin_wrap(w: nat, a: nat, b: nat)
     requires w == 8 || w == 16 || w == 32 || w == 64 || w == 128, a < pow2(w), b < pow2(w)
     ensures
         // wrap-around is insensitive to the reading of the operands
         tc(w, sint(w, a) + sint(w, b)) == tc(w, (a + b) as int),
         tc(w, sint(w, a) - sint(w, b)) == tc(w, a - b),
-        tc(w, sint(w, a) * sint(w, b)) == tc(w, (a * b) as int),
-        // unsigned results are already in range
-        b != 0 ==> tc(w, (a as int) / (b as int)) == a / b,
-        b != 0 ==> tc(w, trem(a as int, b as int)) == a % b,
-        b != 0 ==> tdiv(a as int, b as int) == a / b,
-        b < w ==> b % w == b,
-        b < w ==> tc(w, (a as int) / (pow2(b) as int)) == a / pow2(b),
         sint(w, b) != 0 <==> b != 0,
 {
     lemma_pow2_values();
@@ -89,31 +82,76 @@ pub proof fn lemma_bin_int_facts(w: nat, a: nat, b: nat)
     let kb: int = if sb == b as int { 0 } else { -1 };
     assert((-1) * m == -m && 0 * m == 0) by (nonlinear_arith);
     assert(sa == a + ka * m && sb == b + kb * m);
-    // add / sub
     assert(sa + sb == (a + b) + (ka + kb) * m) by (nonlinear_arith) requires sa == a + ka * m, sb == b + kb * m;
     lemma_mod_shift((a + b) as int, ka + kb, m);
     assert(sa - sb == (a - b) + (ka - kb) * m) by (nonlinear_arith) requires sa == a + ka * m, sb == b + kb * m;
     lemma_mod_shift((a - b) as int, ka - kb, m);
-    // mul
-    assert(sa * sb == (a * b) + (ka * b + kb * a + ka * kb * m) * m) by (nonlinear_arith)
-        requires sa == a + ka * m, sb == b + kb * m;
-    lemma_mod_shift((a * b) as int, ka * b + kb * a + ka * kb * m, m);
-    if b != 0 {
-        let q = (a as int) / (b as int);
-        assert(0 <= q <= a) by (nonlinear_arith) requires q == (a as int) / (b as int), b >= 1, a >= 0;
-        lemma_tc_small(w, q);
-        vstd::arithmetic::div_mod::lemma_fundamental_div_mod(a as int, b as int);
-        assert(trem(a as int, b as int) == (a as int) % (b as int));
-        assert(0 <= (a as int) % (b as int) < b) by (nonlinear_arith) requires b >= 1;
-        lemma_tc_small(w, (a as int) % (b as int));
+}
+pub proof fn lemma_bin_mul(w: nat, a: nat, b: nat)
+    requires w == 8 || w == 16 || w == 32 || w == 64 || w == 128, a < pow2(w), b < pow2(w)
+    ensures tc(w, sint(w, a) * sint(w, b)) == tc(w, (a * b) as int),
+{
+    lemma_pow2_values();
+    let m = pow2(w) as int;
+    let sa = sint(w, a); let sb = sint(w, b);
+    let ai = a as int; let bi = b as int;
+    // four cases: each operand is read as itself or as itself minus 2^w
+    if sa == ai && sb == bi {
+    } else if sa == ai - m && sb == bi {
+        assert((ai - m) * bi == ai * bi + (-bi) * m) by (nonlinear_arith);
+        lemma_mod_shift(ai * bi, -bi, m);
+    } else if sa == ai && sb == bi - m {
+        assert(ai * (bi - m) == ai * bi + (-ai) * m) by (nonlinear_arith);
+        lemma_mod_shift(ai * bi, -ai, m);
+    } else {
+        assert(sa == ai - m && sb == bi - m);
+        assert((ai - m) * (bi - m) == ai * bi + (m - ai - bi) * m) by (nonlinear_arith);
+        lemma_mod_shift(ai * bi, m - ai - bi, m);
     }
-    if b < w {
-        vstd::arithmetic::div_mod::lemma_small_mod(b, w);
-        lemma_pow2_pos(b);
-        let q = (a as int) / (pow2(b) as int);
-        assert(0 <= q <= a) by (nonlinear_arith) requires q == (a as int) / (pow2(b) as int), pow2(b) >= 1, a >= 0;
-        lemma_tc_small(w, q);
-    }
+}
+pub proof fn lemma_bin_div(w: nat, a: nat, b: nat)
+    requires w == 8 || w == 16 || w == 32 || w == 64 || w == 128, a < pow2(w), b < pow2(w), b != 0
+    ensures
+        // unsigned results are already in range
+        tc(w, (a as int) / (b as int)) == a / b,
+        tc(w, trem(a as int, b as int)) == a % b,
+        tdiv(a as int, b as int) == a / b,
+{
+    let q = (a as int) / (b as int);
+    assert(0 <= q <= a) by (nonlinear_arith) requires q == (a as int) / (b as int), b >= 1, a >= 0;
+    lemma_tc_small(w, q);
+    vstd::arithmetic::div_mod::lemma_fundamental_div_mod(a as int, b as int);
+    assert(trem(a as int, b as int) == (a as int) % (b as int));
+    assert(0 <= (a as int) % (b as int) < b) by (nonlinear_arith) requires b >= 1;
+    lemma_tc_small(w, (a as int) % (b as int));
+}
+pub proof fn lemma_bin_shift(w: nat, a: nat, b: nat)
+    requires w == 8 || w == 16 || w == 32 || w == 64 || w == 128, a < pow2(w), b < w
+    ensures b % w == b, tc(w, (a as int) / (pow2(b) as int)) == a / pow2(b),
+{
+    vstd::arithmetic::div_mod::lemma_small_mod(b, w);
+    lemma_pow2_pos(b);
+    let q = (a as int) / (pow2(b) as int);
+    assert(0 <= q <= a) by (nonlinear_arith) requires q == (a as int) / (pow2(b) as int), pow2(b) >= 1, a >= 0;
+    lemma_tc_small(w, q);
+}
+pub proof fn lemma_bin_int_facts(w: nat, a: nat, b: nat)
+    requires w == 8 || w == 16 || w == 32 || w == 64 || w == 128, a < pow2(w), b < pow2(w)
+    ensures
+        tc(w, sint(w, a) + sint(w, b)) == tc(w, (a + b) as int),
+        tc(w, sint(w, a) - sint(w, b)) == tc(w, a - b),
+        tc(w, sint(w, a) * sint(w, b)) == tc(w, (a * b) as int),
+        b != 0 ==> tc(w, (a as int) / (b as int)) == a / b,
+        b != 0 ==> tc(w, trem(a as int, b as int)) == a % b,
+        b != 0 ==> tdiv(a as int, b as int) == a / b,
+        b < w ==> b % w == b,
+        b < w ==> tc(w, (a as int) / (pow2(b) as int)) == a / pow2(b),
+        sint(w, b) != 0 <==> b != 0,
+{
+    lemma_bin_wrap(w, a, b);
+    lemma_bin_mul(w, a, b);
+    if b != 0 { lemma_bin_div(w, a, b); }
+    if b < w { lemma_bin_shift(w, a, b); }
 }
 
 pub proof fn lemma_pow2_pos(n: nat) ensures pow2(n) >= 1 decreases n { if n > 0 { lemma_pow2_pos((n - 1) as nat); } }
